@@ -159,6 +159,19 @@ Example C05_ex_simplify_shapes :
   /\ Simplify (QBranch [] true) = QBranch [] true.
 Proof. vm_compute. repeat split. Qed.
 
+(** Boost weights are carried as binary64 BIT PATTERNS (N), so the theorems above cover every weight a query can
+    carry over the wire — NaN (0x7ff8000000000001: a value for which Go's == is false on itself), +Inf, -0.
+    The rewrites never compare weights (flatten reports `changed` by a flag, not by comparing trees), so the
+    flatten loop reaches its fixpoint on such trees like on any other: here after two changed rounds. *)
+Definition ex_nan : N := 9221120237041090561%N.
+Definition ex_inf : N := 9218868437227405312%N.
+Example C05_ex_nan_boost_fixpoint :
+  let q := QOr [QBoost ex_nan (QOr [QOr [QSubstring ex_foo false false true]]); QOr [QBoost ex_inf (QAnd [QLanguage ex_main])]; QSubstring ex_main false false true] in
+  Simplify q = QOr [QBoost ex_nan (QSubstring ex_foo false false true); QBoost ex_inf (QLanguage ex_main); QSubstring ex_main false false true]
+  /\ flatten (Simplify q) = (Simplify q, false)
+  /\ snd (flatten (evalConstants q)) = true.
+Proof. vm_compute. repeat split. Qed.
+
 (** the per-shard theorem applies to a live document, and the rewrite does something there:
     repo:foo holds for every live repository of ex_shard, so it becomes TRUE *)
 Example C05_ex_shard :
